@@ -66,7 +66,7 @@ def plan(pid, tier, seed):
     rng = random.Random(seed * 7919 + sum(ord(c) for c in pid))
     P = {"mc": [], "gen": [], "need": {}}
 
-    def mc(module, cfg, cap, post=ident, simulate=None, timeout=900, pick=None, export=True):
+    def mc(module, cfg, cap, post=ident, simulate=None, timeout=1800, pick=None, export=True):
         P["mc"].append(dict(module=module, cfg=cfg, cap=cap, post=post, simulate=simulate, timeout=timeout, pick=pick,
                             export=export))
 
@@ -195,17 +195,17 @@ def plan(pid, tier, seed):
         P["need"] = dict(calls=500)
     elif pid in ("C03", "C05"):
         mc("MC_Conc", "MC_Crash_q.cfg" if q else "MC_Crash_t.cfg", 1200 if q else 10000, pick=pick_recovering,
-           timeout=900 if q else 3000)
+           timeout=1800 if q else 3000)
         if pid == "C05":
             # a crash may also interrupt the recovery itself (after each of its file-modifying calls)
             mc("MC_Conc", "MC_RCrash_q.cfg" if q else "MC_RCrash_t.cfg", 300 if q else 3000,
                pick=lambda behs, cap, r: r.sample([b for b in behs if any(st["a"] == "crash_in_open" for st in b)] or behs,
                                                   min(cap, len([b for b in behs if any(st["a"] == "crash_in_open" for st in b)] or behs))),
-               timeout=900 if q else 3000)
+               timeout=1800 if q else 3000)
         crash_runs(36 if q else (150 if pid == "C03" else 100), 14 if q else 30, gen2=(pid == "C05"))
         P["need"] = dict(probes=3000, crashes=500)
     elif pid in ("C09", "C10"):
-        mc("MC_Seq", ("MC_%s_q.cfg" if q else "MC_%s_t.cfg") % pid, 300 if q else 2000, timeout=900 if q else 3000)
+        mc("MC_Seq", ("MC_%s_q.cfg" if q else "MC_%s_t.cfg") % pid, 300 if q else 2000, timeout=1800 if q else 3000)
         kind = "damage" if pid == "C09" else "tail"
 
         def g():
@@ -597,12 +597,15 @@ def replay(pid, path):
     for tp, res, o in mon:
         if res is None:
             raise vlib.ToolError("TraceMonitor did not consume the replay trace")
+        known = load_known()
         for v in res["out"]["viol"]:
-            print("  %s %s run=%d seq=%d %s" % (v["p"], v["k"], v["run"], v["seq"], json.dumps(v["d"])[:400]))
-            if v["p"] == pid:
+            kf = match_known(v, known)
+            print("  %s %s run=%d seq=%d %s%s" % (v["p"], v["k"], v["run"], v["seq"], json.dumps(v["d"])[:400],
+                                                 "  [known finding %s]" % kf.get("id", "") if kf else ""))
+            if v["p"] == pid and not kf:
                 rc = 1
     if rc:
         print("VIOLATION property=%s replay=%s" % (pid, path))
     else:
-        print("replay: the violation does not reproduce on this tree")
+        print("replay: no violation of %s on this tree other than recorded known findings" % pid)
     return rc
